@@ -197,6 +197,11 @@ func Check() *common.Check {
 				seen[sql] = true
 				valid = append(valid, s)
 				e.Do("valid|"+sql, func(c *common.Ctx) { c.Sample(sql); compareAll(c, sql, "generated") })
+				for _, l := range []int{sqlgen.LLines, sqlgen.LComments, sqlgen.LComments2} {
+					alt := sqlgen.Render(s.Toks, l)
+					kind := fmt.Sprintf("generated:layout%d", l)
+					e.Do("valid-layout|"+alt, func(c *common.Ctx) { compareAll(c, alt, kind) })
+				}
 			})
 			// single-token corruptions
 			n := 250
@@ -260,7 +265,7 @@ func Check() *common.Check {
 			rec(nil, 0)
 			// comments and blank space around statements
 			for _, body := range []string{"SELECT c1 FROM t1", "SELECT FROM", "SELECT c1 FROM t1; DELETE FROM t2"} {
-				for _, pre := range []string{"", "-- lead\n", "/* lead */ ", "\n\n  "} {
+				for _, pre := range []string{"", "-- lead\n", "/* lead */ ", "\n\n  ", "/* a */\n-- b\n", "  -- a\n  -- b\n", "/* a */ /* b */ ", "-- a\n\n-- b\n"} {
 					for _, post := range []string{"", " -- trail", " -- trail\n", " /* trail */", ";-- trail", "; /* trail */ ;", "\n"} {
 						sql := pre + body + post
 						e.Do("comment|"+sql, func(c *common.Ctx) { compareAll(c, sql, "comment") })
